@@ -4,6 +4,7 @@ import (
 	"fmt"
 	"go/parser"
 	"go/token"
+	"os"
 	"strings"
 
 	"github.com/uber-go/gopatch/patch"
@@ -146,6 +147,8 @@ func c07Header(variant, src string) string {
 func c07Gen(tier string, emit func(any)) {
 	emit(&C07Case{Family: "longname", Flags: []string{}})
 	emit(&C07Case{Family: "longname", Flags: []string{"--skip-import-processing"}})
+	emit(&C07Case{Family: "hardlink", Flags: []string{}})
+	emit(&C07Case{Family: "hardlink", Flags: []string{"--skip-import-processing"}})
 	for _, sq := range seqs([]string{"fits-long", "fits-short", "misfit", "nomatch"}, 3) {
 		if len(sq) < 2 {
 			continue
@@ -204,13 +207,22 @@ func c07RunLongName(env *core.Env, c *C07Case) core.Outcome {
 	judge := func(real bool) core.Outcome {
 		o := core.Outcome{Nontrivial: true, Class: "longname/" + modeClass(c.Flags)}
 		name := "l_" + strings.Repeat("n", 238) + ".go"
+		if c.Family == "hardlink" {
+			name = "linked.go"
+		}
 		src := "package p\n\nvar v = shrink(aaaaaaaaaaaaaaaa, bbbbbbbbbbbbbbbbbbbb, cccccccccccccccccc)\n\nfunc tail() {\n\tshrink(1, 2, 3)\n}\n"
 		sb := newSandbox(env, "c07l", map[string]string{"t/" + name: src, "v.patch": "@@\n@@\n-shrink(...)\n+s()\n"})
 		defer sb.remove()
+		if c.Family == "hardlink" {
+			// the target has a second name outside the processed directory
+			if err := os.Link(sb.path("t/"+name), sb.path("other-name.go")); err != nil {
+				panic("harness: " + err.Error())
+			}
+		}
 		r := sb.run(real, "t", append(append([]string{"-p", sb.path("v.patch")}, c.Flags...), name), "")
 		got := sb.read("t/" + name)
 		bad := func(key, format string, a ...any) core.Outcome {
-			o.Violation = fmt.Sprintf("[long file name, flags %q] ", strings.Join(c.Flags, " ")) + fmt.Sprintf(format, a...)
+			o.Violation = fmt.Sprintf("["+c.Family+", flags %q] ", strings.Join(c.Flags, " ")) + fmt.Sprintf(format, a...)
 			o.FindingKey = "C07:" + key + "/longname"
 			return o
 		}
@@ -236,7 +248,7 @@ func c07Run(env *core.Env, ci any) core.Outcome {
 	if len(c.Multi) > 0 {
 		return c07RunMulti(env, c)
 	}
-	if c.Family == "longname" {
+	if c.Family == "longname" || c.Family == "hardlink" {
 		return c07RunLongName(env, c)
 	}
 	mode := strings.Join(c.Flags, " ")
